@@ -934,7 +934,10 @@ def gen_program(node, code, codegen):
             continue
         codegen.gen_code_for_node(child, code)
 
-    code.add(('ret',))
+    # Reaching the end of the module-level code ends the program, like
+    # END does, even if a GOSUB is still pending (a 'ret' here would
+    # take the pending GOSUB's return address for its own).
+    code.add(('halt',))
 
     for child in sub_routines:
         codegen.gen_code_for_node(child, code)
